@@ -69,6 +69,16 @@ def generated_queries(tier='quick'):
         ('model-join-using', "SELECT t.a, m.p FROM int1.tbl1 AS t JOIN mindsdb.pred AS m USING partition_size = 10, Foo = 'Bar'"),
         ('model-join-table2', 'SELECT * FROM int1.tbl1 AS t JOIN mindsdb.pred AS m JOIN int2.tbl2 AS t2 ON t2.id = t.id'),
         ('model-join-table2-part', 'SELECT * FROM int1.tbl1 AS t JOIN mindsdb.pred AS m JOIN int2.tbl2 AS t2 ON t2.id = t.id USING partition_size = 10'),
+    ]
+    # partitioned model joins: every join kind x model on either side x a trailing table / second model
+    for jk in ('JOIN', 'INNER JOIN', 'LEFT JOIN', 'RIGHT JOIN', 'FULL JOIN', 'FULL OUTER JOIN', 'LEFT OUTER JOIN'):
+        tag = jk.replace(' ', '_').lower()
+        q.append((f'part-{tag}', f'SELECT * FROM int1.tbl1 AS t {jk} mindsdb.pred AS m USING partition_size = 10'))
+        q.append((f'part-{tag}-where', f'SELECT t.a, m.p FROM int1.tbl1 AS t {jk} mindsdb.pred AS m WHERE t.a = 1 AND m.x = 2 USING partition_size = 10'))
+        q.append((f'part-{tag}-then-table', f'SELECT * FROM int1.tbl1 AS t {jk} mindsdb.pred AS m JOIN int2.tbl2 AS t2 ON t2.id = t.id USING partition_size = 10'))
+        q.append((f'part-table-then-{tag}', f'SELECT * FROM int1.tbl1 AS t JOIN int2.tbl2 AS t2 ON t2.id = t.id {jk} mindsdb.pred AS m USING partition_size = 10'))
+        q.append((f'part-{tag}-two-models', f'SELECT * FROM int1.tbl1 AS t {jk} mindsdb.pred AS m {jk} proj.pred2 AS m2 USING partition_size = 5'))
+    q += [
         ('model-version', 'SELECT * FROM int1.tbl1 AS t JOIN mindsdb.pred.3 AS m'),
         ('model-project', 'SELECT * FROM int1.tbl1 AS t JOIN proj.pred2 AS m'),
         ('two-models', 'SELECT * FROM int1.tbl1 AS t JOIN mindsdb.pred AS m JOIN proj.pred2 AS m2'),
